@@ -5,7 +5,7 @@
    consumers: lisp_lex / lisp_read_string (Emacs Lisp), csv_read_rfc (RFC 4180), csv_read_bs
    (backslash escapes), xml_decode (XML character data).  All statements hold for ALL byte strings
    (no printability or length restriction) unless a hypothesis says otherwise. *)
-From LedgerV Require Import Base.Prelude Gen.CsvFormat Gen.PayeeRule Gen.JoinRule Model.Escape Proofs.EscapeProofs Proofs.EscapeXmlProofs Proofs.EscapeJoinProofs.
+From LedgerV Require Import Base.Prelude Gen.CsvFormat Gen.PayeeRule Gen.JoinRule Gen.XmlWalk Model.Escape Proofs.EscapeProofs Proofs.EscapeXmlProofs Proofs.EscapeJoinProofs.
 Local Open Scope Z_scope.
 
 (* ---- emacs ---- *)
@@ -157,6 +157,29 @@ Print Assumptions emacs_payee_faithful_partial.
 Theorem emacs_payee_refuted : exists x p, In p (x_posts x) /\ post_payee x p <> x_payee x.
 Proof. exists pw_xact, pw_post. split; [left; reflexivity|]. vm_compute. discriminate. Qed.
 Print Assumptions emacs_payee_refuted.
+
+(* ---- which postings the xml report lists (ptree.cc format_ptree::flush; Gen/XmlWalk.v is
+   regenerated from the source on every run and selects the statement): with the postings that
+   REACHED the handler the report lists exactly the displayed ones, as register, csv and emacs do;
+   with the postings calc_posts visited it lists more under --display (finding F1801) ---- *)
+Definition xml_walk_statement (w : xml_walk) : Prop :=
+  match w with
+  | WalkDisplayed => forall displayed all, xml_walked_rule w displayed all = displayed
+  | WalkVisited => (forall displayed all, displayed = all -> xml_walked_rule w displayed all = displayed)
+                   /\ exists displayed all, xml_walked_rule w displayed all <> displayed
+  | WalkUnrecognised => False
+  end.
+Definition wit_walk_post : post := mkPost 2 0 0 [65] (mkAmt [49] [80] None [49]) None None None None [] [].
+Theorem xml_walk_recognised : src_xml_walk <> WalkUnrecognised.
+Proof. discriminate. Qed.
+Print Assumptions xml_walk_recognised.
+Theorem xml_walk_faithful : xml_walk_statement src_xml_walk.
+Proof.
+  unfold src_xml_walk, xml_walk_statement; cbn;
+  first [ split; [intros d a H; symmetry; exact H | exists [], [wit_walk_post]; discriminate]
+        | intros d a; reflexivity ].
+Qed.
+Print Assumptions xml_walk_faithful.
 
 (* ---- csv written with quoted_rfc ---- *)
 Theorem csv_rfc_roundtrip : forall rows,
